@@ -156,6 +156,18 @@ class GateReplacer(Visitor):
         """This happens when the user indexes a qubit register."""
         alias_from = self.visit(qubit.alias_from)
         alias_index = filter_float(self.visit(qubit.alias_index))
+        if isinstance(alias_from, NamedQubit) or not isinstance(
+            alias_from, (Register, Parameter)
+        ):
+            raise JaqalError(
+                f"Cannot expand {qubit.name}: {alias_from} is not a register"
+            )
+        if isinstance(alias_index, bool) or not isinstance(
+            alias_index, (int, AnnotatedValue)
+        ):
+            raise JaqalError(
+                f"Cannot expand {qubit.name}: {alias_index} is not an integer"
+            )
         return alias_from[alias_index]
 
 
